@@ -152,4 +152,51 @@ Proof.
     + injection H as <- <- <-. apply next_none_iff in En as [_ [-> _]].
       split; [simpl; lia|]. split; [reflexivity|]. split; [constructor|]. split; [discriminate|]. intros _. constructor.
 Qed.
+
+(* ---------- a retry goes to the NEXT target of the list (cyclically), never to the one that just failed *)
+Fixpoint steps_ok (n : nat) (l : list nat) : Prop :=
+  match l with
+  | a :: ((b :: _) as r) => b = (if S a <? n then S a else 0) /\ steps_ok n r
+  | _ => True
+  end.
+
+Lemma next_two s last s' last' i : 2 <= length (targets T s) -> next s last = (s', last', Some i) ->
+  last' = Some i /\ targets T s' = targets T s /\
+  (forall a, last = Some a -> i = (if S a <? length (targets T s) then S a else 0)).
+Proof.
+  unfold next. destruct (targets T s) as [|x [|y l]] eqn:Et; simpl length; try lia. intros _.
+  destruct last as [a|]; intro H; inversion H; subst; clear H.
+  - split; [reflexivity|]. split; [exact Et|]. intros a0 Ha. inversion Ha; subst. reflexivity.
+  - split; [reflexivity|]. split; [reflexivity|]. intros a Ha. discriminate.
+Qed.
+
+Lemma attempt_head alive : forall r s a s' is ok, 2 <= length (targets T s) ->
+  attempt T r s (Some a) alive = (s', is, ok) ->
+  match is with j :: _ => j = (if S a <? length (targets T s) then S a else 0) | [] => True end.
+Proof.
+  intros r s a s' is ok Hn H. destruct r; cbn [attempt] in H;
+    destruct (next s (Some a)) as [[s1 last1] [i|]] eqn:En;
+    try (injection H as <- <- <-; exact I);
+    destruct (next_two _ _ _ _ _ Hn En) as [_ [Ht Hi]];
+    destruct (nth_error (targets T s1) i); try (injection H as <- <- <-; apply Hi; reflexivity);
+    destruct (alive t); try (injection H as <- <- <-; apply Hi; reflexivity).
+  destruct (attempt T r s1 last1 alive) as [[s2 is2] ok2]. injection H as <- <- <-. apply Hi. reflexivity.
+Qed.
+
+Theorem attempt_steps alive : forall r s last s' is ok, 2 <= length (targets T s) ->
+  attempt T r s last alive = (s', is, ok) -> steps_ok (length (targets T s)) is.
+Proof.
+  induction r as [|r IH]; intros s last s' is ok Hn H; cbn [attempt] in H.
+  - destruct (next s last) as [[s1 last1] [i|]]; [|injection H as <- <- <-; exact I].
+    destruct (nth_error (targets T s1) i); [|injection H as <- <- <-; exact I].
+    destruct (alive t); injection H as <- <- <-; exact I.
+  - destruct (next s last) as [[s1 last1] [i|]] eqn:En; [|injection H as <- <- <-; exact I].
+    destruct (next_two _ _ _ _ _ Hn En) as [Hl [Ht _]]. subst last1.
+    destruct (nth_error (targets T s1) i); [|injection H as <- <- <-; exact I].
+    destruct (alive t); [injection H as <- <- <-; exact I|].
+    destruct (attempt T r s1 (Some i) alive) as [[s2 is2] ok2] eqn:Er. injection H as <- <- <-.
+    assert (Hn1 : 2 <= length (targets T s1)) by (rewrite Ht; exact Hn).
+    pose proof (attempt_head alive _ _ _ _ _ _ Hn1 Er) as Hh. pose proof (IH _ _ _ _ _ Hn1 Er) as Hs.
+    rewrite Ht in Hh, Hs. destruct is2 as [|j r2]; [exact I|]. split; [exact Hh|exact Hs].
+Qed.
 End RR.
